@@ -23,8 +23,18 @@ RECV_NOTE = ("Trusts TLC, the scripted transport and projection (vf/recvworld.py
              "independent frame builder vf/wire.py; transport behaviour (cuts, timeouts, EOF, reset) is simulated.")
 
 
+REPLAYED = ("C02", "C03", "C04", "C05", "C07")
+REPLAY_TEXT = (" In the direction specification -> code TLC enumerates the behaviours of RecvSim.tla (the model plus the history of the "
+               "environment's choices: calls, pieces handed over, timeouts, end of stream - every behaviour for small constants, "
+               "simulated ones for larger), each is replayed into the real WebSocket over a scripted transport and TraceRecv "
+               "compares the observable history with the one the model predicted.")
+
+
 def _recv(pid, text, tech):
-    CHECKS[pid] = dict(engine="Recv+RecvMC+TraceRecv", technique=tech, text=text, note=RECV_NOTE, ref="4 " + pid)
+    rep = pid in REPLAYED
+    CHECKS[pid] = dict(engine="Recv+RecvMC+RecvSim+TraceRecv" if rep else "Recv+RecvMC+TraceRecv",
+                       technique=tech + ("; replay of TLC-enumerated model behaviours (RecvSim.tla) into the implementation" if rep else ""),
+                       text=text + (REPLAY_TEXT if rep else ""), note=RECV_NOTE, ref="4 " + pid)
 
 
 _recv("C02", "TLC model-checks the byte-level receive machine (Recv.tla) against a frame-level oracle over all "
